@@ -19,7 +19,7 @@ RULE = ("base runs = {quart, soft} x 3 Hessians x boxes {free, box, mixed} (n=3)
         "Rosenbrock n in {2,4} + Styblinski-Tang, x maxcor {1,2,3,5}; EVERY split "
         "iteration k in 1..10; EVERY chain of <= 3 restarts inside 8 iterations (all 63 "
         "subsets of split points; quick: on base runs with maxcor in {2,5}); maxcor reduced "
-        "to every m' <= maxcor at k in {3,6}; oracle: zero-iteration restart returns the "
+        "to every m' <= maxcor at k in {3,6}; configuration letters on the splits: finite-difference gradient with a budget ending inside the next line search, a large unused `eps`, a gradient scaler (constant 10 / 0.1, packaged) in parent and restart; oracle: zero-iteration restart returns the "
         "checkpoint's point and pairs, next iterate of the restart equals the parent's "
         "(1e-8 relative), each chain link compared with its own parent continued, reduced "
         "memory keeps the most recent pairs and equals the restart from the "
@@ -49,6 +49,21 @@ def cases(tier, variants):
             for dl in (1, 2, 3, 1000):
                 yield dict(b, part="split", k=k, fd="2-point", dmaxfun=dl)
     yield from _extra_cases(tier, variants)
+    # base runs in which correction pairs get REJECTED (steps cut by a bound or by the
+    # user's maximum step length in regions of negative curvature): splits right after a
+    # rejected pair, with older pairs kept, full memory or not
+    # (under ALL numeric variants: whether a cut step meets negative curvature depends on
+    # the numbers)
+    for v in range(core.NVAR):
+        for fam in ("coswell", "oscil", "sinsum"):
+            for n in (2, 3, 4):
+                for box, st, ms in (("box", "in", None), ("box", "face", None),
+                                    ("free", "in", 1.0), ("free", "in", 0.3)):
+                    for m in (1, 2, 5):
+                        for k in range(1, K + 1):
+                            yield dict(kind="nonconvex", fam=fam, n=n, box=box, start=st, var=v,
+                                       maxcor=m, label=f"{fam}{n}", part="split", k=k,
+                                       **({"maxstep": ms} if ms else {}))
 
 
 def _extra_cases(tier, variants):
@@ -57,6 +72,11 @@ def _extra_cases(tier, variants):
     for b in H.base_runs(variants, maxcors=(3,), small=(tier == "quick")):
         for k in range(1, 9):
             yield dict(b, part="split", k=k, fdeps=0.5)
+    # configuration letter: a gradient scaler in use, in the parent and in the restart
+    for b in H.base_runs(variants, maxcors=(3,), small=(tier == "quick")):
+        for k in range(1, 9):
+            for sc in (10.0, 0.1, "packaged"):
+                yield dict(b, part="split", k=k, scaler=sc)
 
 
 def run(case):
@@ -68,6 +88,19 @@ def run(case):
         kwx = {}
         if case.get("fdeps"):
             kwx["eps"] = case["fdeps"]
+        if case.get("maxstep"):
+            kwx["max_steplength"] = case["maxstep"]
+        if case.get("scaler"):
+            # configuration letter: the same gradient scaler in the parent and in the
+            # restart (constant factor, or the packaged state-dependent one)
+            if case["scaler"] == "packaged":
+                from lbfgsb import get_gradient_projection_unit_scaling as _sc
+                x0c_ = np.clip(p.x0, p.lb, p.ub)
+                if F.pgnorm(x0c_, np.asarray(p.g(x0c_), float), p.lb, p.ub) == 0:
+                    return dict(viol=[], outcome="zero_pg_skipped", stats={"skipped": 1})
+            else:
+                _sc = (lambda *a_, _s=float(case["scaler"]): _s)
+            kwx["gradient_scaler"] = _sc
         if case.get("fd"):
             kwx["jac"] = case["fd"]
             n_at_k = H.solve(p, case, k, **kwx).nfev
@@ -101,9 +134,16 @@ def run(case):
                 viol.append(V("restart_next_iterate_differs", err=err, child=ch.x, parent=par.x,
                               pairs=int(ck0.hess_inv.sk.shape[0])))
         npairs = int(ck0.hess_inv.sk.shape[0])
+        # was the newest candidate pair of the parent rejected at the split?
+        rej = 0
+        if k >= 2:
+            prev = H_solve(p, case, k - 1)
+            rej = int(prev.hess_inv.sk.shape == ck0.hess_inv.sk.shape
+                      and np.array_equal(prev.hess_inv.sk, ck0.hess_inv.sk)
+                      and not np.array_equal(prev.x, ck0.x))
         return dict(viol=viol, outcome=f"pairs{npairs}",
                     nontrivial=core.case_hash(case) if npairs >= 2 else None,
-                    stats={"links": 1})
+                    stats={"links": 1, "splits_right_after_a_rejected_pair": rej})
     if part == "chain":
         splits = case["splits"]
 
